@@ -338,3 +338,72 @@ func MemoKeyMismatches(f *Func) []MemoKeyMismatch {
 	}
 	return out
 }
+
+// SliceReuse is a slice that is truncated with x = x[:0] inside a loop and
+// whose header is also stored (struct field, composite literal, map or slice
+// element) inside that loop: every stored value shares one backing array, so
+// later iterations overwrite what earlier iterations stored.
+type SliceReuse struct {
+	Var   types.Object
+	Reset ast.Node
+	Store ast.Node
+}
+
+// SliceReuses finds the pattern in f.
+func SliceReuses(f *Func) []SliceReuse {
+	info := f.Pkg.TypesInfo
+	var out []SliceReuse
+	ast.Inspect(f.Decl.Body, func(n ast.Node) bool {
+		body := loopBody(n)
+		if body == nil {
+			return true
+		}
+		resets := map[types.Object]ast.Node{}
+		ast.Inspect(body, func(x ast.Node) bool {
+			as, ok := x.(*ast.AssignStmt)
+			if !ok || len(as.Lhs) != 1 || len(as.Rhs) != 1 {
+				return true
+			}
+			se, ok := Unparen(as.Rhs[0]).(*ast.SliceExpr)
+			if !ok || se.Low != nil || se.High == nil {
+				return true
+			}
+			if k, ok := ConstInt(info, se.High); !ok || k != 0 {
+				return true
+			}
+			o := ObjOf(info, as.Lhs[0])
+			if o != nil && o == ObjOf(info, se.X) && !within(declNode(o, f), body) {
+				resets[o] = as
+			}
+			return true
+		})
+		if len(resets) == 0 {
+			return true
+		}
+		ast.Inspect(body, func(x ast.Node) bool {
+			switch s := x.(type) {
+			case *ast.KeyValueExpr:
+				if o := ObjOf(info, s.Value); o != nil && resets[o] != nil {
+					out = append(out, SliceReuse{Var: o, Reset: resets[o], Store: s})
+				}
+			case *ast.AssignStmt:
+				for i, l := range s.Lhs {
+					if i >= len(s.Rhs) {
+						continue
+					}
+					o := ObjOf(info, s.Rhs[i])
+					if o == nil || resets[o] == nil {
+						continue
+					}
+					switch Unparen(l).(type) {
+					case *ast.SelectorExpr, *ast.IndexExpr:
+						out = append(out, SliceReuse{Var: o, Reset: resets[o], Store: s})
+					}
+				}
+			}
+			return true
+		})
+		return true
+	})
+	return out
+}
